@@ -63,7 +63,7 @@ func usr(id int64) *User {
 
 // Distributable fields: "Type.field".
 var Fields = []string{"User.secret", "User.score", "User.device", "User.devices", "User.tags", "User.scaled", "Device.temp", "Device.owner",
-	"Query.users", "Query.user1", "Query.nobody", "Query.everyone", "Query.devices", "Query.count", "Query.userById"}
+	"Query.users", "Query.user1", "Query.nobody", "Query.everyone", "Query.devices", "Query.devicesN", "Query.count", "Query.userById"}
 
 // Rendered: the logical (argument-free) fields the reference sees for the fields with arguments.
 var Rendered = map[string][2]string{
@@ -89,7 +89,7 @@ func has(ss []string, s string) bool {
 func build(s *schemabuilder.Schema, serves func(f string) bool) {
 	needUser := serves("User.secret") || serves("User.score") || serves("User.device") || serves("User.devices") || serves("User.tags") ||
 		serves("User.scaled") || serves("Query.userById") || serves("Query.users") || serves("Query.user1") || serves("Query.nobody") || serves("Query.everyone") || serves("Device.owner")
-	needDevice := serves("Device.temp") || serves("Device.owner") || serves("Query.devices") || serves("User.device") || serves("User.devices")
+	needDevice := serves("Device.temp") || serves("Device.owner") || serves("Query.devices") || serves("Query.devicesN") || serves("User.device") || serves("User.devices")
 	q := s.Query()
 	if serves("Query.count") {
 		q.FieldFunc("count", func() int64 { return 3 })
@@ -157,6 +157,10 @@ func build(s *schemabuilder.Schema, serves func(f string) bool) {
 	}
 	if serves("Query.devices") {
 		q.FieldFunc("devices", func(ctx context.Context) []*Device { return []*Device{dev(8), dev(7)} })
+	}
+	if serves("Query.devicesN") {
+		// a list with a nil entry in the middle
+		q.FieldFunc("devicesN", func(ctx context.Context) []*Device { return []*Device{dev(7), nil, dev(8)} })
 	}
 	if serves("Query.everyone") {
 		a := s.Object("Admin", Admin{}, schemabuilder.FetchObjectFromKeys(func(args struct{ Keys []*Admin }) []*Admin { return args.Keys }))
@@ -292,7 +296,7 @@ func Describe() zoo.Desc {
 	d.Types["Everyone"] = zoo.TypeDesc{Kind: "UNION", Fields: map[string]zoo.TRef{}, Members: []string{"User", "Admin"}}
 	d.Types["Query"] = zoo.TypeDesc{Kind: "OBJECT", Members: []string{}, Fields: map[string]zoo.TRef{
 		"users": list(named("User")), "user1": named("User"), "nobody": named("User"), "everyone": list(named("Everyone")),
-		"devices": list(named("Device")), "count": named("Int"),
+		"devices": list(named("Device")), "devicesN": list(named("Device")), "count": named("Int"),
 		"userById1": named("User"), "userById3": named("User"), "userById9": named("User")}}
 	d.Types["User"] = zoo.TypeDesc{Kind: "OBJECT", Key: "id", Members: []string{}, Fields: map[string]zoo.TRef{
 		"id": named("Int"), "orgId": named("Int"), "name": named("String"), "secret": named("String"), "score": named("Int"),
@@ -332,7 +336,7 @@ func Describe() zoo.Desc {
 		ru = append(ru, un(id))
 	}
 	d.Objs["q"] = zoo.ObjDesc{Type: "Query", M: map[string]tj.T{"users": refs(ru), "user1": ref("u1"), "nobody": ref(""),
-		"everyone": refs(rootEveryone), "devices": refs([]string{"d8", "d7"}), "count": tj.From(3),
+		"everyone": refs(rootEveryone), "devices": refs([]string{"d8", "d7"}), "devicesN": refs([]string{"d7", "", "d8"}), "count": tj.From(3),
 		"userById1": ref("u1"), "userById3": ref("u3"), "userById9": ref("")}}
 	ids := []int64{}
 	for id := range users {
